@@ -40,3 +40,22 @@ def run(ctx):
              "behaviours with clock steps in {-3,-1,0,1,2,31} units, request timestamps offset by {-40,-3,0,3,40} units and timeout "
              "hints {none, 2}; exhaustive to a depth bound plus simulation; non-trivial = the clock moved backwards or a request "
              "carried a timestamp different from the server clock")
+    # the same engine with a fine clock: one model unit = 0.2 ms, so that steps of a fraction of a millisecond (backwards and
+    # forwards) reach the interval arithmetic of subscriptions and of items with their own sampling interval
+    U = 200
+    sec = 1000000 // U
+    f1 = [["CreateSub", 1, 1, 3, True, 0, sec], ["CreateItem", 1, 1, 1, 2, True, "Reporting", sec // 2]]
+    f2 = [["CreateSub", 1, 1, 3, True, 0, sec], ["CreateItem", 1, 1, 1, 2, True, "Reporting", -1]]
+    fine = consts(Vals={0, 1}, ReqTimeout=30 * sec, Acts={"Write", "Pub", "Tick"}, Scripts=scripts([f1, f2]),
+                  Dts={-sec // 2, -2, -1, 1, sec // 2, sec}, Hints={0}, TsOffs={-2, 0, 2}, MaxWrites=1, MaxPubs=2,
+                  MaxTicks=4 if q else 5, MaxDepth=2 + (5 if q else 6))
+    mcf = dict(fine, Mons={"C26"})
+    ctx.model_check("design_fine_clock", "MCSubs", mcf, ["C26"], view="MView")
+    h, r = ctx.gen("fine_clock", "GenSubs", dict(fine, MaxDepth=2 + (4 if q else 5)))
+    gf = [("fine_clock", to_cases(take(h, 2500 if q else 40000, ctx.seed)))]
+    h, r = ctx.gen("fine_random", "GenSubs", dict(fine, MaxDepth=30, MaxPubs=10, MaxTicks=18, MaxWrites=6),
+                   simulate="num=%d" % max(20, n // 8))
+    gf.append(("fine_random", to_cases(take(h, n, ctx.seed))))
+    pipeline(ctx, "C26", gf, trace_consts(mcf), nontrivial,
+             "the same with a fine clock (one unit = 0.2 ms): steps of -2, -1, +1 units (fractions of a millisecond), half a second "
+             "and a second, an item with its own 500 ms sampling interval", name="subs_fine", unit_us=U)
